@@ -24,14 +24,16 @@ def hexVal (c : Char) : Option Nat :=
   else if 'A' ≤ c ∧ c ≤ 'F' then some (c.toNat - 55)
   else none
 
-def ofHexChars : List Char → Option Bytes
-  | [] => some []
-  | [_] => none
-  | a :: b :: rest => do
-    let x ← hexVal a
-    let y ← hexVal b
-    let r ← ofHexChars rest
-    pure (UInt8.ofNat (16 * x + y) :: r)
+def ofHexCharsAux : List Char → Bytes → Option Bytes
+  | [], acc => some acc.reverse
+  | [_], _ => none
+  | a :: b :: rest, acc =>
+    match hexVal a, hexVal b with
+    | some x, some y => ofHexCharsAux rest (UInt8.ofNat (16 * x + y) :: acc)
+    | _, _ => none
+
+/-- tail-recursive, so multi-megabyte fields do not overflow the stack in the compiled driver -/
+def ofHexChars (cs : List Char) : Option Bytes := ofHexCharsAux cs []
 
 def ofHex (s : String) : Option Bytes :=
   if s == "-" then some [] else ofHexChars s.toList
